@@ -22,9 +22,10 @@
    * `map[string]any` (template-data) is a Cfg/Json.v object, nil = empty;
    * replace-type (map[pkg-path]map[type-name]*ReplaceType) is an association list keyed by
      (pkg-path, type-name);
-   * exclude-subpkg-regex ([]string): [None] = nil slice.  Only its merge is modelled here; which
-     level's list is consulted and the discovery itself belong to C07 and arrive as the
-     argument [disc];
+   * exclude-subpkg-regex ([]string): [None] = nil slice, [Some []] = an explicit empty list (it
+     overrides an inherited list).  The list consulted for the sub-packages of a recursive package
+     is that package's own merged list (fix 897a9af); discovery itself (`go list pkg/...`) is the
+     argument [disc], the regular-expression engine the argument [rx];
    * `_anchors` is not modelled (not a parameter of the property);
    * mergeConfigs dereferences src's pointer when dest's is nil: a nil/nil pair is a Go panic,
      the explicit outcome [Panic] here;
@@ -162,10 +163,16 @@ Definition is_true (o : option scalar) : bool :=
 
 Definition str_of (o : option scalar) : str := match o with Some (SStr s) => s | _ => [] end.
 
-(* second loop of RootConfig.Initialize for one recursive package: every discovered
-   sub-package receives the parent's (already merged) config; only Config, not Interfaces *)
-Definition rec_step (disc : list (str * list str)) (pkgs : list (str * pcfg)) (parent : str)
-  : list (str * pcfg) :=
+(* Config.ShouldExcludeSubpkg of the recursive package: one of its (merged) exclude-subpkg-regex
+   patterns matches the sub-package path; [rx] is the regular-expression engine *)
+Definition excluded (rx : str -> str -> bool) (esr : option (list str)) (pkg : str) : bool :=
+  match esr with Some l => existsb (fun r => rx r pkg) l | None => false end.
+
+(* second loop of RootConfig.Initialize for one recursive package: every discovered sub-package
+   that the package's own exclusion list does not exclude receives the package's (already merged)
+   config; only Config, not Interfaces.  [disc] = `go list pkg/...` minus pkg itself. *)
+Definition rec_step (rx : str -> str -> bool) (disc : list (str * list str)) (pkgs : list (str * pcfg))
+           (parent : str) : list (str * pcfg) :=
   match get parent pkgs with
   | None => pkgs
   | Some pp =>
@@ -173,14 +180,23 @@ Definition rec_step (disc : list (str * list str)) (pkgs : list (str * pcfg)) (p
                  let sp := match get sub acc with Some x => x | None => empty_pcfg end in
                  set sub {| pc_config := merge_cfg (pc_config pp) (pc_config sp);
                             pc_ifaces := pc_ifaces sp |} acc)
-              (match get parent disc with Some l => l | None => [] end) pkgs
+              (filter (fun sub => negb (excluded rx (c_esr (pc_config pp)) sub))
+                      (match get parent disc with Some l => l | None => [] end)) pkgs
   end.
 
+(* sort.Sort(sort.Reverse(sort.StringSlice(recursivePackages))): descendants before ancestors *)
+Fixpoint insert_desc (x : str) (l : list str) : list str :=
+  match l with
+  | [] => [x]
+  | y :: t => if sltb x y then y :: insert_desc x t else x :: l
+  end.
+Definition sort_desc (l : list str) : list str := fold_right insert_desc [] l.
+
 (* one call of RootConfig.Initialize.  [t_pkgs] is in the iteration order of the Go map. *)
-Definition init_pure (disc : list (str * list str)) (t : tree) : tree :=
+Definition init_pure (rx : str -> str -> bool) (disc : list (str * list str)) (t : tree) : tree :=
   let pkgs1 := map (fun e => (fst e, init_pkg (t_root t) (snd e))) (t_pkgs t) in
-  let recs := map fst (filter (fun e => is_true (c_ptr (pc_config (snd e)) PRecursive)) pkgs1) in
-  {| t_root := t_root t; t_pkgs := fold_left (rec_step disc) recs pkgs1 |}.
+  let recs := sort_desc (map fst (filter (fun e => is_true (c_ptr (pc_config (snd e)) PRecursive)) pkgs1)) in
+  {| t_root := t_root t; t_pkgs := fold_left (rec_step rx disc) recs pkgs1 |}.
 
 (* every pointer field set *)
 Definition total (c : cfg) : bool := forallb (fun p => negb (is_none (c_ptr c p))) all_pparams.
@@ -198,16 +214,16 @@ Definition pkg_panics (root : cfg) (p : pcfg) : bool :=
 
 Inductive outcome := Panic | Ok (t : tree).
 
-Definition initialize (disc : list (str * list str)) (t : tree) : outcome :=
+Definition initialize (rx : str -> str -> bool) (disc : list (str * list str)) (t : tree) : outcome :=
   if existsb (fun e => pkg_panics (t_root t) (snd e)) (t_pkgs t)
-  then Panic else Ok (init_pure disc t).
+  then Panic else Ok (init_pure rx disc t).
 
 (* NewRootConfig calls Initialize once (this is what `mockery showconfig` prints); RootApp.Run
    calls it a second time on the result. *)
-Definition run_config (disc : list (str * list str)) (t : tree) : outcome :=
-  match initialize disc t with
+Definition run_config (rx : str -> str -> bool) (disc : list (str * list str)) (t : tree) : outcome :=
+  match initialize rx disc t with
   | Panic => Panic
-  | Ok t1 => initialize disc t1
+  | Ok t1 => initialize rx disc t1
   end.
 
 (* ------------------------------------------------------------------ one mock *)
